@@ -245,6 +245,25 @@ func loopPhiOf(t *Term) *ssa.Phi {
 	return phi
 }
 
+// innermostLoopPhi: among the range-loop phis mentioned in t, the one of the innermost loop.
+func innermostLoopPhi(t *Term) *ssa.Phi {
+	var phis []*ssa.Phi
+	t.Walk(func(x *Term) {
+		if x.Op == "phi" && strings.HasPrefix(x.Name, "rangeindex") {
+			if p, ok := x.Instr.(*ssa.Phi); ok {
+				phis = append(phis, p)
+			}
+		}
+	})
+	var best *ssa.Phi
+	for _, p := range phis {
+		if best == nil || best.Block().Dominates(p.Block()) {
+			best = p
+		}
+	}
+	return best
+}
+
 // NaturalLoop returns the blocks of the natural loop headed by h (h included).
 func (fa *FuncAnalysis) NaturalLoop(h *ssa.BasicBlock) map[*ssa.BasicBlock]bool {
 	loop := map[*ssa.BasicBlock]bool{h: true}
